@@ -288,6 +288,17 @@ func (e *Engine) modifiesLocs(f *Frame, c *Contract, callee *ssa.Function, cc *s
 
 func (e *Engine) modLocOf(ctx *EvalCtx, x *Expr, c *Contract) ([]modLoc, bool) {
 	switch {
+	case x.Op == "call" && x.Name == "elemscap" && len(x.Args) == 1:
+		// all elements of the backing array window [off, off+cap) (in-place append may write beyond len)
+		v, err := e.eval(ctx, x.Args[0])
+		if err != nil {
+			e.bindError(c.Key+".modifies", err)
+			return nil, false
+		}
+		if sl, ok := v.T.Underlying().(*types.Slice); ok {
+			w := fmt.Sprintf("(mk-slice (s.arr %s) (s.off %s) (s.cap %s) (s.cap %s))", v.S, v.S, v.S, v.S)
+			return []modLoc{{kind: "elems", base: "(s.arr " + v.S + ")", rootT: sl.Elem(), slice: w}}, true
+		}
 	case x.Op == "call" && x.Name == "elems" && len(x.Args) == 1:
 		v, err := e.eval(ctx, x.Args[0])
 		if err != nil {
